@@ -209,6 +209,8 @@ class AbstractContainer(abstract.GeomdlBase):
             raise ValueError("Evaluation delta should be between 0.0 and 1.0. You are trying to set it to " + str(value)
                              + " for the " + str(idx + 1) + "st parametric dimension.")
         self._delta[idx] = float(value)
+        # Reset the cache
+        self.reset()
 
     @property
     def sample_size(self):
@@ -262,6 +264,8 @@ class AbstractContainer(abstract.GeomdlBase):
         if value < 2:
             raise GeomdlException("Sample size must be an integer value bigger than 2")
         self._delta[idx] = 1.0 / float(value - 1)
+        # Reset the cache
+        self.reset()
 
     @property
     def data(self):
